@@ -237,8 +237,14 @@ func runEpisode(cfg epCfg) (ep *epResult) {
 					ep.faultTime = time.Since(start)
 				}
 			}
+			var pendingFlips []txFault
 			net.OnDeliver = func(d *verifsim.Delivery) verifsim.Action {
 				fs := byAt[d.Index]
+				if len(pendingFlips) > 0 {
+					// a flip waits for the first delivery at or after its index that carries payload/CRC bytes
+					fs = append(append([]txFault(nil), fs...), pendingFlips...)
+					pendingFlips = nil
+				}
 				act := verifsim.ActNone
 				for _, f := range fs {
 					switch f.Kind {
@@ -258,11 +264,18 @@ func runEpisode(cfg epCfg) (ep *epResult) {
 						noteFault(f.Kind)
 						cancelR()
 					case "flip":
-						if len(d.Data) > 0 {
-							noteFault(f.Kind)
-							i := f.Arg % (len(d.Data) * 8)
+						// only chunk payload or the checksum field of a sender data frame
+						key := fmt.Sprintf("%s/%d", d.From.Name, d.Stream)
+						if key == ep.sCtlKey || !senderSide(key, sp.SenderCli) || len(d.Data) == 0 {
+							pendingFlips = append(pendingFlips, f)
+							break
+						}
+						if bi, region, ok := flipTarget(ep.wire.streams[key], d.Offset, len(d.Data), f.Arg); ok {
+							noteFault("flip:" + region)
 							d.Data = append([]byte(nil), d.Data...)
-							d.Data[i/8] ^= 1 << (i % 8)
+							d.Data[bi] ^= 1 << (f.Arg % 8)
+						} else {
+							pendingFlips = append(pendingFlips, f)
 						}
 					case "src_shrink":
 						if len(fileItems) > 0 {
@@ -1132,3 +1145,43 @@ func chunkSizeForIndexRef(size int64, cs uint32, idx uint32) uint32 {
 }
 
 var _ = errors.Is
+
+// flipTarget picks a byte of the delivered segment [off, off+n) of a data
+// stream that lies in a chunk payload or in a frame's CRC field.
+func flipTarget(ws *wireStream, off int64, n int, arg int) (int, string, bool) {
+	if ws == nil {
+		return 0, "", false
+	}
+	type rng struct {
+		lo, hi int64
+		region string
+	}
+	var ok []rng
+	pos := int64(0)
+	for pos+dataChunkHeaderLen <= int64(len(ws.buf)) {
+		ln := int64(uint32(ws.buf[pos+12])<<24 | uint32(ws.buf[pos+13])<<16 | uint32(ws.buf[pos+14])<<8 | uint32(ws.buf[pos+15]))
+		ok = append(ok, rng{pos + 16, pos + 20, "crc"}, rng{pos + 20, pos + 20 + ln, "payload"})
+		pos += dataChunkHeaderLen + ln
+	}
+	want := "payload"
+	if arg%4 == 0 {
+		want = "crc"
+	}
+	var cands []int
+	var regs []string
+	for i := 0; i < n; i++ {
+		a := off + int64(i)
+		for _, r := range ok {
+			if r.region == want && a >= r.lo && a < r.hi {
+				cands = append(cands, i)
+				regs = append(regs, r.region)
+				break
+			}
+		}
+	}
+	if len(cands) == 0 {
+		return 0, "", false
+	}
+	k := arg % len(cands)
+	return cands[k], regs[k], true
+}
